@@ -375,6 +375,10 @@ func (e *Evaluator) evalCaseMatch(value *Cell, exprs []Expr) (bool, map[string]*
 			if err != nil {
 				return false, nil, err
 			}
+			if value.Value.Tag == ValueUnknown {
+				// an unset subject equals no literal, as for ==
+				continue
+			}
 			cmp, err := value.Value.Compare(&caseValue.Value)
 			if err != nil {
 				return false, nil, e.error(expr.Token(), err.Error())
